@@ -54,8 +54,6 @@ Definition cfg_inv (ops : list op) : nat -> bool :=
 (* per pass number (C07/Judge.v), the decidable precondition of the pass's preservation theorem,
    evaluated on every real input of the pass: use/def table well-formedness; for
    remove_sequential_jumps also that the flags the new NOOPs clear are dead (not proved in general) *)
-Definition side_ok_placeholder := tt.
-
 (* behaviour preservation of a deletion, for every instruction semantics in which RVRT stops and
    side-effect-free ops do not trap: stuttering simulation in both directions between related
    states (equal memory; registers equal when live in the reduced program or never written by a
@@ -100,22 +98,22 @@ Fixpoint nodup_b (l : list N) : bool :=
 
 (* remove_sequential_jumps puts a NOOP (clearing $of/$err) where the jump left them alone: the
    flags must be dead there in the new program *)
-Definition seqj_replaced (ops : list op) : list bool :=
-  (fix go (l : list op) : list bool :=
-     match l with
-     | a :: t => match t with b :: _ => jump_to_next a b :: go t | [] => [false] end
-     | [] => []
-     end) ops.
+Definition flags_not_in (Lc' : ltab) (i : nat) : bool :=
+  andb (negb (PS.mem (rkey R_OF) (lget Lc' i))) (negb (PS.mem (rkey R_ERR) (lget Lc' i))).
+
+Fixpoint seqj_walk (Lc' : ltab) (i : nat) (l : list op) : bool :=
+  match l with
+  | a :: t => match t with
+              | b :: _ => andb (orb (negb (jump_to_next a b)) (flags_not_in Lc' (S i))) (seqj_walk Lc' (S i) t)
+              | [] => true
+              end
+  | [] => true
+  end.
 
 Definition seqj_side_with (Lc' : ltab) (ops : list op) : bool :=
-  let ops' := remove_sequential_jumps ops in
-  andb (is_postfix defs_c (items_of ops') Lc')
+  andb (is_postfix defs_c (items_of (remove_sequential_jumps ops)) Lc')
   (andb (forallb wf_c_opb ops)
-  (andb (nodup_b (labels_of ops))
-        (forallb (fun p => match p with (i, rep) =>
-                    orb (negb rep) (andb (negb (PS.mem (rkey R_OF) (lget Lc' (S i))))
-                                         (negb (PS.mem (rkey R_ERR) (lget Lc' (S i))))) end)
-                 (combine (seq 0 (length ops)) (seqj_replaced ops))))).
+  (andb (nodup_b (labels_of ops)) (seqj_walk Lc' 0 ops))).
 
 Definition seqj_side_ok (ops : list op) : bool :=
   match liveness defs_c FUEL (remove_sequential_jumps ops) with
